@@ -33,11 +33,12 @@ ASSUMPTIONS = common.BASE_ASSUMPTIONS + [
 REAL_VS_STUB = common.REAL_VS_STUB
 QUICK_RUNS = 90000
 QUICK_MODEL_RUNS = 50000
+GIANT_EVERY = 257  # one reader scenario in 257 carries a frame at the limits of the U2 length field
 EXPECTED_PROBES = {
     t: [
         "chunk_boundary_ubx_sync", "chunk_boundary_ubx_length", "chunk_boundary_ubx_checksum", "chunk_boundary_nmea_crlf",
         "chunk_boundary_rtcm_hdr", "chunk_boundary_rtcm_crc", "chunk_boundary_frame_boundary", "end_close", "end_timeout",
-        "bufsize_1", "bufsize_4096", "model_runs", "model_readline_calls", "exhaustive_segmentations", "coalesced_recv",
+        "bufsize_1", "bufsize_4096", "model_runs", "model_readline_calls", "exhaustive_segmentations", "coalesced_recv", "giant_frame_wires", "long_pause_blocking_socket",
     ]
     for t in ("quick", "thorough")
 }
@@ -70,10 +71,22 @@ def generate(seed: int, tier: str = "quick") -> dict:
             frames = common.add_noise(r_lnk, frames, pre)
     else:
         frames = common.gen_mixed_frames(r_dev, r_lnk, n, cfg, pre)
+    if seed % GIANT_EVERY == GIANT_EVERY - 1:
+        # a frame at the limits of the 16-bit length field (payload 65535 / 65534 / 65279 bytes) between ordinary ones
+        nbig = r_cfg.choice((0xFFFF, 0xFFFF, 0xFFFE, 0xFEFF, 0x8000))
+        big = W.ubx_frame(r_cfg.choice((0x02, 0x66)), r_cfg.choice((0x13, 0x77)), device.payload_bytes(r_dev, nbig, r_cfg.choice(("zeros", "random"))))
+        frames = frames[:2]
+        frames.insert(r_cfg.randrange(len(frames) + 1), {"kind": "ubx", "hex": big.hex(), "faults": [], "note": f"giant ubx frame payload {nbig}"})
+        pre.hit("giant_frame_wires")
     spans = sched.spans_of(frames)
     wire_len = spans[-1][1] if spans else 0
     tr = common.draw_transport(r_sch, wire_len, spans, kinds=("socket",))
     cfg["bufsize"] = r_sch.choice(sched.BUFSIZES)
+    if wire_len > 60000:
+        cfg["bufsize"] = r_sch.choice((64, 1024, 4096, 4096, 65536))
+        if len(tr.get("segments") or ()) > 400:
+            sizes = sched.random_segments(r_sch, wire_len, spans, style="few")
+            tr["segments"] = sched.timed_segments(r_sch, sizes, tr.get("timeout"))
     return {"seed": seed, "mode": "reader", "config": cfg, "frames": frames, "transport": tr, "pre_faults": dict(pre)}
 
 
@@ -157,6 +170,8 @@ def _run_reader_case(scn, res=None):
         if any(isinstance(e[3], int) and e[3] == e[2] and e[2] < 4096 for e in out.transport.ledger):
             c.hit("fault_bufsize_clip")
         c.hit("fault_segment", max(len(segs) - 1, 0))
+        if tr.get("timeout") is None and any(b[0] - a[0] > 0.5 for a, b in zip(segs, segs[1:])):
+            c.hit("long_pause_blocking_socket")
         for k, v in (scn.get("pre_faults") or {}).items():
             c.hit(k, v)
         link.count_fired(scn["frames"], c)
